@@ -12,6 +12,7 @@ package main
 import (
 	"bytes"
 	"fmt"
+	"io"
 	"os"
 	"os/exec"
 	"runtime"
@@ -48,7 +49,21 @@ func childMain(args []string) {
 		} else {
 			msg = msg[:supplied]
 		}
-		rd := bytes.NewReader(msg)
+		var rd io.Reader = bytes.NewReader(msg)
+		if len(args) > 3 && args[3] == "1" { // a message-oriented reader (diam.MultistreamReader)
+			rd = &fakeMS{data: msg, stream: 3, cur: diam.InvalidStreamID}
+		} else if len(args) > 3 && args[3] == "2" { // the library's own SCTP connection over the in-memory association
+			var chunks []sctpChunk
+			for rest := msg; len(rest) > 0; {
+				k := 1400
+				if k > len(rest) {
+					k = len(rest)
+				}
+				chunks = append(chunks, sctpChunk{5, rest[:k]})
+				rest = rest[k:]
+			}
+			rd = diam.NewVerifSCTPConn(newSCTPBackend(chunks, io.EOF))
+		}
 		runtime.ReadMemStats(&before)
 		_, err := diam.ReadMessage(rd, dict.Default)
 		runtime.ReadMemStats(&after)
@@ -127,7 +142,8 @@ func execResource(toks []string) string {
 	case "claim":
 		d, _ := kvGet(toks, "declared")
 		s, _ := kvGet(toks, "supplied")
-		return runChild(30*time.Second, "claim", d, s)
+		ms, _ := kvGet(toks, "ms")
+		return runChild(30*time.Second, "claim", d, s, ms)
 	case "nest":
 		d, _ := kvGet(toks, "depth")
 		op, _ := kvGet(toks, "op")
@@ -148,6 +164,11 @@ func genResource(r *RNG, n int, op string, emit func(string)) {
 				emit(fmt.Sprintf("resource claim declared=%d supplied=%d", L, k))
 			}
 			emit(fmt.Sprintf("resource claim declared=%d supplied=%d", L, 20+r.Intn(L-19)))
+			// the same through message-oriented readers (the SCTP path of readBodyBytes)
+			if L > 1044 {
+				emit(fmt.Sprintf("resource claim declared=%d supplied=%d ms=1", L, 20))
+				emit(fmt.Sprintf("resource claim declared=%d supplied=%d ms=2", L, []int{20, 1000}[r.Intn(2)]))
+			}
 		}
 	case "nest":
 		for _, d := range []int{1, 8, 64, 300, 1000} {
